@@ -286,7 +286,7 @@ def str_method(I, v, name, args, kwargs):
     B = v.is_bytes
 
     def sarg(i):
-        a = args[i]
+        a = args[i] = unopt(I, args[i])
         if not isinstance(a, VStr):
             raise Unsupported('str.%s arg %r' % (name, a))
         return a.t
